@@ -167,16 +167,15 @@ let judge_ms (ins : string list) (outs : string list) : verdict =
   let specs = try parse_ms_in ins with Bad t -> raise (Failure ("bad IN token " ^ t)) in
   (* split OUT *)
   let obs : mobs list ref = ref [] and cur = ref None in
-  let nw = ref (-1) and raw = ref None and rest = ref [] in
+  let tail = ref [] in
   let rec scan = function
     | [] -> ()
     | t :: r ->
-        if starts_with "RAW=" t then begin raw := Some (chars_of_hex (after "RAW=" t)); rest := r end
+        if starts_with "SINK=" t then tail := t :: r
         else begin
           (if String.length t >= 2 && t.[0] = 'm' && t.[1] >= '0' && t.[1] <= '9' then begin
               let o = { cid = []; ep = []; t0 = "0"; t1 = "0"; u = None; w = None; wb = []; panicked = false } in
               cur := Some o; obs := o :: !obs end
-           else if starts_with "NW=" t then nw := int_of_string (after "NW=" t)
            else match !cur with
              | None -> ()
              | Some o ->
@@ -192,10 +191,33 @@ let judge_ms (ins : string list) (outs : string list) : verdict =
         end in
   scan outs;
   let obs = List.rev !obs in
+  if List.length obs <> List.length specs then VDisagree "message-count" else
+  (* sink sections: SINK=name [NOTE=..] NW=n RAW=x.. frame* final *)
+  let rec split_secs acc cur = function
+    | [] -> List.rev (match cur with None -> acc | Some c -> List.rev c :: acc)
+    | t :: r when starts_with "SINK=" t ->
+        split_secs (match cur with None -> acc | Some c -> List.rev c :: acc) (Some [t]) r
+    | t :: r -> (match cur with Some c -> split_secs acc (Some (t :: c)) r | None -> split_secs acc None r) in
+  let secs = split_secs [] None !tail in
+  if secs = [] then VDisagree "no-sink-section-in-observation" else
+  let judge_section (sec : string list) : verdict =
+  let sname = match sec with t :: _ -> after "SINK=" t | [] -> "?" in
+  let nw = ref (-1) and raw = ref None and rest = ref [] and note = ref "" in
+  let rec sscan = function
+    | [] -> ()
+    | t :: r ->
+        if starts_with "RAW=" t then begin raw := Some (chars_of_hex (after "RAW=" t)); rest := r end
+        else begin
+          (if starts_with "NW=" t then nw := int_of_string (after "NW=" t)
+           else if starts_with "NOTE=" t then note := after "NOTE=" t);
+          sscan r end in
+  sscan sec;
+  if starts_with "harness-error" !note then VDisagree (sname ^ ": " ^ !note) else
+  if !note <> "" then
+    VPropfail ("sink_delivery", Printf.sprintf "%s: %s (the subscriber was cut off before the end of the stream)" sname !note) else
   match !raw with
   | None -> VDisagree "no-RAW-in-observation"
   | Some raw ->
-  if List.length obs <> List.length specs then VDisagree "message-count" else
   match parse_observed !rest with
   | Error e -> VDisagree ("unrepresentable-observation:" ^ e)
   | Ok (frames, ofin) ->
@@ -288,7 +310,20 @@ let judge_ms (ins : string list) (outs : string list) : verdict =
     VDisagree (Printf.sprintf "writes: %d Write calls for %d frames (one Write per frame is what keeps frames whole)" !nw (List.length frames))
   else
     VOk (List.length frames >= 10
-         && List.exists (function FData (_, _, _, _, (_ :: _)) -> true | _ -> false) frames))
+         && List.exists (function FData (_, _, _, _, (_ :: _)) -> true | _ -> false) frames)) in
+  (* every sink section is judged; a property failure outranks a disagreement *)
+  let tag sec v = let n = (match sec with t :: _ -> after "SINK=" t | [] -> "?") in
+    match v with
+    | VPropfail (c, d) -> VPropfail (c, "[sink " ^ n ^ "] " ^ d)
+    | VDisagree d -> VDisagree ("[sink " ^ n ^ "] " ^ d)
+    | v -> v in
+  let vs = List.map (fun sec -> tag sec (judge_section sec)) secs in
+  match List.find_opt (function VPropfail _ -> true | _ -> false) vs with
+  | Some v -> v
+  | None ->
+    match List.find_opt (function VDisagree _ -> true | _ -> false) vs with
+    | Some v -> v
+    | None -> VOk (List.exists (function VOk true -> true | _ -> false) vs)
 
 let judge _name ins outs =
   match ins with
